@@ -54,12 +54,27 @@ def scenarios(draw):
                   str(src.choice([1, 2]))]
     if src.bool(0.5):
         sc["opts"] += ["--count_exons"]
-    dim = src.choice(["annotation", "annotation", "bam"])
+    dim = src.choice(["annotation", "annotation", "bam", "reference"])
     if dim == "annotation":
         sc["variant"] = {"dim": "annotation", "form": src.choice(["gtf", "gtf.gz", "db"]),
                          "complete": src.bool(0.5), "cache": src.choice(["fresh", "reused", "clean_start"])}
         if sc["variant"]["form"] == "gtf" and sc["variant"]["complete"] and sc["variant"]["cache"] == "fresh":
             sc["variant"]["cache"] = "reused"
+    elif dim == "reference":
+        # the same genome as a soft-masked copy (repeats in lower case, as in Ensembl dna_sm / UCSC downloads): segments
+        # around splice sites of the reads and at random places
+        segs = []
+        for r in sc["reads"]:
+            if r.get("c") is None or not src.bool(0.4):
+                continue
+            b = R.cigar_blocks(r["p"], r["cg"])
+            for i in range(len(b) - 1):
+                if src.bool(0.5):
+                    segs.append([r["c"], max(0, b[i][1] - src.int(5, 40)), src.int(20, 120)])
+        for c in sc["chroms"]:
+            for _ in range(src.int(0, 3)):
+                segs.append([c[0], src.int(0, max(0, c[1] - 700)), src.int(50, 600)])
+        sc["variant"] = {"dim": "reference", "lower": segs}
     else:
         # a second record of a read with the same span and a junction placed 2 bp apart (aligners report such
         # secondary alignments at repeats next to splice sites)
@@ -215,6 +230,31 @@ def evaluate(case, ctx):
             if ov:
                 ctx.mark_nontrivial(case_hash(case))
                 ctx.sample(pipeline.summarize(sc, {"variant": v}), limit=2)
+        elif v["dim"] == "reference":
+            sc2 = copy.deepcopy(sc)
+            sc2["overrides"] = list(sc.get("overrides") or []) + [[c_, a_, "@lower:%d" % n_] for c_, a_, n_ in v["lower"]]
+            g2 = build.make_genome(sc2)
+            ind = os.path.join(d, "in2")
+            os.makedirs(ind, exist_ok=True)
+            fa2 = os.path.join(ind, "genome.fa")
+            build.write_fasta(g2, fa2, [c[0] for c in sc["chroms"]])
+            same_letters = all(g2[c[0]].upper() == base.paths["genome"][c[0]].upper() for c in sc["chroms"])
+            if not same_letters:
+                ctx.harness_errors.append("soft-masked genome differs from the original in more than case")
+                return
+            paths2 = dict(base.paths)
+            paths2["fasta"] = fa2
+            res2 = pipeline.run_case(sc, ctx, d=d, paths=paths2, out_name="out2", home=os.path.join(d, "home2"))
+            if res2.code != 0:
+                ctx.violation("C12:soft-masked-reference-run-fails:" + res2.crash_signature().split("@")[0],
+                              {"log": res2.log_tail(10)}, case)
+                return
+            for kind, f, det in compare.diff_dirs(base.out, "OUT", res2.out, "OUT"):
+                ctx.violation("C12:soft-masked-reference-changes-output:" + f, {"kind": kind, "file": f, "detail": det},
+                              case)
+            ctx.cls("reference_soft_masked")
+            if v["lower"]:
+                ctx.mark_nontrivial(case_hash(case))
         else:
             sc2 = copy.deepcopy(sc)
             sc2["nfiles"] = v["k"]
